@@ -2,6 +2,7 @@
 package props
 
 import (
+	"context"
 	"fmt"
 	"math/big"
 	"os"
@@ -10,6 +11,7 @@ import (
 	"runtime"
 	"strconv"
 	"strings"
+	"time"
 
 	ike "github.com/free5gc/ike"
 	"github.com/free5gc/ike/eap"
@@ -371,6 +373,7 @@ type freshCase struct {
 }
 
 var freshCases = map[string][]freshCase{}
+var freshHung = map[string]bool{}
 
 func registerFresh(prop string, cs ...freshCase) { freshCases[prop] = append(freshCases[prop], cs...) }
 
@@ -396,8 +399,33 @@ func freshFamily(c *core.Ctx, prop, family string, reps int) {
 	c.Family(family, n*reps, func(k *core.Case) {
 		k.Eval(1)
 		i, rep := k.Index%n, k.Index/n
-		cmd := exec.Command(os.Args[0], "fresh", prop, strconv.Itoa(i), strconv.Itoa(rep))
-		out, err := cmd.CombinedOutput()
+		if freshHung[prop+"/"+freshCases[prop][i].name] {
+			k.Count("fresh_process_case_skipped_after_it_hung_twice", 1)
+			return
+		}
+		// a child that does not come back is given a second, longer chance; only a reproduced expiry is a verdict
+		var out []byte
+		var err error
+		timedOut := 0
+		for _, limit := range []time.Duration{90 * time.Second, 200 * time.Second} {
+			ctx, cancel := context.WithTimeout(context.Background(), limit)
+			cmd := exec.CommandContext(ctx, os.Args[0], "fresh", prop, strconv.Itoa(i), strconv.Itoa(rep))
+			out, err = cmd.CombinedOutput()
+			expired := ctx.Err() == context.DeadlineExceeded
+			cancel()
+			if !expired {
+				break
+			}
+			timedOut++
+		}
+		if timedOut == 2 {
+			freshHung[prop+"/"+freshCases[prop][i].name] = true
+			k.Violate("no-return", "fresh-process-case-does-not-return/"+freshCases[prop][i].name, "the child process did not finish within 90 s and again not within 200 s (alone the case takes well under a second)", M{"case": freshCases[prop][i].name, "rep": rep, "output": clipS(string(out), 3000)})
+			return
+		}
+		if timedOut == 1 {
+			k.Count("fresh_process_case_slow_once(load)", 1)
+		}
 		text := string(out)
 		line := ""
 		for _, l := range strings.Split(text, "\n") {
